@@ -251,7 +251,7 @@ def get_rot_pos_from_path(obj, show_path=None):
     path_len = pos.shape[0]
     if show_path is True or show_path is False or show_path == 0:
         inds = np.array([-1])
-    elif isinstance(show_path, int):
+    elif isinstance(show_path, (int, np.integer)):
         inds = np.arange(path_len, dtype=int)[::-show_path]
     elif hasattr(show_path, "__iter__") and not isinstance(show_path, str):
         inds = np.array(show_path)
